@@ -1,6 +1,7 @@
 (* C05 — a computed spectrum is the reference estimator applied to its own plan (statements only) *)
 From Coq Require Import ZArith List Bool String.
-From SK Require Import Dispatch Hist.
+From Coq Require Import Reals.
+From SK Require Import Arith Dispatch Hist SingleBin.
 From SK.gen Require Import DispatchGen.
 Import ListNotations.
 
@@ -24,5 +25,12 @@ Proof. intros. apply attr_order_independent; assumption. Qed.
 Theorem C05_band_fields_aligned : forall (X Y : Type) (m : list bool) (a : list X) (b : list Y),
   combine (filter_mask m a) (filter_mask m b) = filter_mask m (combine a b).
 Proof. exact @filter_mask_combine. Qed.
+(* single-bin analyses: the reported segmentation lies inside the record, starts at 0 and has exactly the reported count *)
+Theorem C05_single_bin_segmentation : forall (N L : Z) (olap : R), (1 <= L <= N)%Z -> (0 <= olap < 1)%R ->
+  let d := sb_starts RA N L olap in
+  d <> [] /\ hd (-1)%Z d = 0%Z /\ Forall (fun s => (0 <= s /\ s + L <= N)%Z) d /\
+  List.length d = Z.to_nat (Z.max 1 (if (N =? L)%Z then 1 else sb_navg RA N L olap)).
+Proof. exact single_bin_segmentation. Qed.
+Print Assumptions C05_single_bin_segmentation.
 Print Assumptions C05_dispatch_rows.
 Print Assumptions C05_cache_transparent.
